@@ -316,10 +316,19 @@ def obligations(tier):
         for target in ("rna", "dna"):
             for p0, l0, tail in ((0, 1, 3), (2, 2, 2), (4, 1, 0)):
                 obs.append(Ob(f"convert/{target}/C{C}/gap{p0}_{l0}_{tail}", __name__, "mk_convert", {"C": C, "target": target, "p0": p0, "l0": l0, "tail": tail}, timeout=900, group="convert"))
+    from props import c03_columns
+
+    for op in c03_columns.COL_OPS:
+        for arr in (False, True):
+            # separate module = separate worker processes: this module's setup_symbolic rebinding (object-dtype gap arrays, stub
+            # spans) must not be active when whole alignments are constructed the ordinary way
+            obs.append(Ob(f"columns/{op}/{'ArrayAlignment' if arr else 'Alignment'}", "props.c03_columns", "mk_columns", {"op": op, "array_align": arr, "nsym": 3 if T else 2}, timeout=3600 if T else 1800, group="columns"))
     return obs
 
 
 def classify(name, args, cex, rep):
+    if name.startswith("columns/omit/"):
+        return "take_positions:negate-passes-a-list-to-make_seq"
     if name.startswith("add_self"):
         return "Aligned.__add__:same-data-branch"
     return None
